@@ -22,6 +22,7 @@ Conventions
 * Taxa carry an identity (`Nat`), the harness maps it to a unique taxon name.
 -/
 import PybropsModel.Np
+import PybropsModel.Model.LabelMat
 
 namespace BVMat
 
@@ -211,6 +212,7 @@ inductive Err where
   | shape   -- ValueError: trait counts differ
   | index   -- IndexError: position outside the taxa axis
   | type    -- TypeError
+  | unsupported  -- a numpy index form the model does not cover (unsorted multi-position insert)
 deriving Repr, DecidableEq
 
 section matrix
@@ -245,6 +247,7 @@ inductive Op (α : Type) where
   | select (idx : List Nat)            -- select_taxa(indices)            numpy.take
   | delete (idx : List Nat)            -- delete_taxa(obj)                numpy.delete
   | insert (k : Nat) (v : Operand α)   -- insert_taxa(k | [k], values)    numpy.insert
+  | insertMany (ks : List Nat) (v : Operand α)  -- insert_taxa([k0, k1, …], values): value j before row ks[j]
   | adjoin (v : Operand α)             -- adjoin_taxa(values)             numpy.append
   | reorder (idx : List Nat)           -- reorder_taxa(indices), in place, inherited
   | remove (idx : List Nat)            -- remove_taxa(obj), in place, inherited
@@ -254,12 +257,12 @@ inductive Op (α : Type) where
 
 /-- the copy-on-manipulation methods the breeding-value class defines itself -/
 def Op.restandardises : Op α → Bool
-  | .select _ | .delete _ | .insert _ _ | .adjoin _ => true
+  | .select _ | .delete _ | .insert _ _ | .insertMany _ _ | .adjoin _ => true
   | _ => false
 
 /-- operations after which `unscale()` still returns every retained taxon's raw values -/
 def Op.keepsRaw : Op α → Bool
-  | .select _ | .delete _ | .insert _ _ | .adjoin _ | .reorder _ | .remove _ => true
+  | .select _ | .delete _ | .insert _ _ | .insertMany _ _ | .adjoin _ | .reorder _ | .remove _ => true
   | _ => false
 
 /-- the same edit on raw data: what the property says the operation *means* -/
@@ -275,6 +278,13 @@ def applyRaw (op : Op α) (r : Raw α) : Except Err (Raw α) :=
       if v.values.length ≠ t then .error .shape
       else if n < k then .error .index
       else .ok (List.zipWith (fun c w => Np.insert k w c) r.1 v.values, Np.insert k v.taxa r.2)
+  | .insertMany ks v =>
+      if v.values.length ≠ t then .error .shape
+      else if !(ks.all (· ≤ n)) then .error .index
+      else if ks.length ≠ v.taxa.length then .error .shape
+      else if !(LabelMat.isSorted ks) then .error .unsupported
+      else .ok (List.zipWith (fun c w => LabelMat.insertMany ks w c) r.1 v.values,
+                LabelMat.insertMany ks v.taxa r.2)
   | .adjoin v | .append v =>
       if v.values.length ≠ t then .error .shape
       else .ok (List.zipWith (· ++ ·) r.1 v.values, r.2 ++ v.taxa)
@@ -303,6 +313,13 @@ def applyOp (sq : α → α) (needsLocScale : Bool) (op : Op α) (b : BV α) : E
       else if n < k then .error .index
       else .ok (fromNumpy sq (List.zipWith (fun c w => Np.insert k w c) (unscale b) v.values)
                   (Np.insert k v.taxa b.taxa))
+  | .insertMany ks v =>
+      if v.values.length ≠ t then .error .shape
+      else if !(ks.all (· ≤ n)) then .error .index
+      else if ks.length ≠ v.taxa.length then .error .shape
+      else if !(LabelMat.isSorted ks) then .error .unsupported
+      else .ok (fromNumpy sq (List.zipWith (fun c w => LabelMat.insertMany ks w c) (unscale b) v.values)
+                  (LabelMat.insertMany ks v.taxa b.taxa))
   | .adjoin v =>
       if v.values.length ≠ t then .error .shape
       else .ok (fromNumpy sq (List.zipWith (· ++ ·) (unscale b) v.values) (b.taxa ++ v.taxa))
@@ -347,6 +364,104 @@ def runRaw : List (Op α) → Raw α → Except Err (Raw α)
   | op :: ops, r => match applyRaw op r with
     | .ok r' => runRaw ops r'
     | .error e => .error e
+
+/-! #### numpy index objects (front end)
+
+The four methods the class defines hand their index argument to `numpy.take / delete / insert`.
+`OpIx` carries that argument as the caller wrote it (negative positions, slices, boolean masks,
+several insert positions); `OpIx.norm` applies numpy's normalisation rules — those of C03,
+`LabelMat.normIdxs / DelIdx.norm / insPlan` — for the current number of taxa and yields the
+operation in the non-negative list form above. -/
+
+inductive OpIx (α : Type) where
+  | select (is : List Int)                               -- select_taxa(indices)
+  | delete (obj : LabelMat.DelIdx)                       -- delete_taxa(obj)
+  | insert (obj : LabelMat.InsIdx) (v : Operand α)       -- insert_taxa(obj, values)
+  | plain (op : Op α)                                    -- anything already in list form
+
+def errOfLabel : LabelMat.Err → Err
+  | .index => .index
+  | .type => .type
+  | .unsupported => .unsupported
+  | _ => .shape
+
+/-- a one-row operand broadcast to `k` rows (numpy.insert with several positions and one value) -/
+def Operand.rep (k : Nat) (v : Operand α) : Operand α :=
+  .nd (v.values.map (fun c => c.flatMap (List.replicate k))) (v.taxa.flatMap (List.replicate k))
+
+def OpIx.norm (n : Nat) : OpIx α → Except Err (Op α)
+  | .select is => match LabelMat.normIdxs n is with
+    | .ok idx => .ok (.select idx)
+    | .error e => .error (errOfLabel e)
+  | .delete obj => match obj.norm n with
+    | .ok idx => .ok (.delete idx)
+    | .error e => .error (errOfLabel e)
+  | .insert obj v => match LabelMat.insPlan n v.taxa.length obj with
+    | .ok (.scalar p) => .ok (.insert p v)
+    | .ok (.block p) => .ok (.insert p v)
+    | .ok (.many ps) => .ok (.insertMany ps v)
+    | .ok (.manyRep ps) => .ok (.insertMany ps (v.rep ps.length))
+    | .error e => .error (errOfLabel e)
+  | .plain op => .ok op
+
+def runIx (sq : α → α) (needsLocScale : Bool) : List (OpIx α) → BV α → Except Err (BV α)
+  | [], b => .ok b
+  | o :: os, b => match o.norm b.taxa.length with
+    | .error e => .error e
+    | .ok op => match applyOp sq needsLocScale op b with
+      | .ok b' => runIx sq needsLocScale os b'
+      | .error e => .error e
+
+def runRawIx : List (OpIx α) → Raw α → Except Err (Raw α)
+  | [], r => .ok r
+  | o :: os, r => match o.norm r.2.length with
+    | .error e => .error e
+    | .ok op => match applyRaw op r with
+      | .ok r' => runRawIx os r'
+      | .error e => .error e
+
+/-- the operations of the front end that the breeding-value class defines itself -/
+def OpIx.restandardises : OpIx α → Bool
+  | .plain op => op.restandardises
+  | _ => true
+
+/-! #### the proposed overrides for D23–D25 (NOT the code as it is; used by the `repaired_*` theorems)
+
+`append_taxa`, `incorp_taxa`, `remove_taxa` delegate to `adjoin_taxa`, `insert_taxa`, `delete_taxa` and
+adopt the result in place; `concat_taxa` unscales every matrix, concatenates and calls `from_numpy`
+(which also exists for the estimated classes, so nothing raises).  `reorder_taxa` is not touched. -/
+def applyOpRepaired (sq : α → α) (op : Op α) (b : BV α) : Except Err (BV α) :=
+  match op with
+  | .append v => applyOp sq false (.adjoin v) b
+  | .incorp k v => applyOp sq false (.insert k v) b
+  | .remove idx => applyOp sq false (.delete idx) b
+  | .concat vs =>
+      if vs.all (fun o => o.traits.length == b.traits.length) then
+        .ok (fromNumpy sq (vs.foldl (fun acc o => List.zipWith (· ++ ·) acc (unscale o)) (unscale b))
+                         (vs.foldl (fun acc o => acc ++ o.taxa) b.taxa))
+      else .error .shape
+  | op => applyOp sq false op b
+
+def runRepaired (sq : α → α) : List (Op α) → BV α → Except Err (BV α)
+  | [], b => .ok b
+  | op :: ops, b => match applyOpRepaired sq op b with
+    | .ok b' => runRepaired sq ops b'
+    | .error e => .error e
+
+/-- the documented contract of `reorder_taxa(indices)`: `indices` is a permutation of the taxa
+    (of a rectangular matrix); every other operation is constrained by `applyRaw` only -/
+def Op.validAt (op : Op α) (r : Raw α) : Prop :=
+  match op with
+  | .reorder idx => idx.Perm (List.range r.2.length) ∧ ∀ c ∈ r.1, c.length = r.2.length
+  | _ => True
+
+/-- every operation of the history is a valid request in the state it is applied to -/
+def ValidHistory : List (Op α) → Raw α → Prop
+  | [], _ => True
+  | op :: ops, r => op.validAt r ∧
+      match applyRaw op r with
+      | .ok r' => ValidHistory ops r'
+      | .error _ => True
 
 end matrix
 
